@@ -15,7 +15,8 @@ type DefaultOpts struct {
 	NValues int
 }
 
-// DefaultCase builds a method with `default FUNC` in one of the documented shapes.
+// DefaultCase builds a method with `default FUNC` in one of the documented shapes. Feature "mustfail" is set when the
+// shape is *S -> T without useZeroValueOnPointerInconsistency (a pending default FUNC does not make that convertible).
 func DefaultCase(r *rand.Rand, name string, o DefaultOpts) *Case {
 	c := &Case{Name: name, Root: "vcase/" + name}
 	ty := &Package{Path: "ty", Name: "ty"}
@@ -70,8 +71,16 @@ func DefaultCase(r *rand.Rand, name string, o DefaultOpts) *Case {
 	if defUpdate {
 		place("default:update", func(f *vref.Flags) {})
 	}
+	noFlag := false
 	if srcPtr && !tgtPtr {
-		place("useZeroValueOnPointerInconsistency", func(f *vref.Flags) { f.UseZero = true })
+		if r.Intn(3) == 0 {
+			noFlag = true
+			if r.Intn(2) == 0 {
+				convLines = append(convLines, "useZeroValueOnPointerInconsistency no")
+			}
+		} else {
+			place("useZeroValueOnPointerInconsistency", func(f *vref.Flags) { f.UseZero = true })
+		}
 	}
 	switch r.Intn(3) {
 	case 1:
@@ -155,6 +164,9 @@ func DefaultCase(r *rand.Rand, name string, o DefaultOpts) *Case {
 	c.Feature("defaultupdate", fmt.Sprint(defUpdate))
 	c.Feature("izv", fmt.Sprintf("b%v-s%v-n%v", flags.IZBasic, flags.IZStruct, flags.IZNillable))
 	c.Feature("format", o.Format)
+	if noFlag {
+		c.Feature("mustfail", "pointer")
+	}
 	return c
 }
 
